@@ -733,7 +733,7 @@ def check_plain_observers(ctx, fb):
         it = c15.get(fb, name, "compute_root")
         ctx.touch(it)
         eng = Engine(fb, inline=lambda i: False)
-        oks = [p for p in eng.run(it) if p.kind == "return" and known_ok(eng.value_of(p.store, p.ret)) is True]
+        oks = [p for p in eng.run(it) if p.kind == "return" and known_ok(eng.value_of(p.store, p.ret)) is not False]
         good = len(oks) == 1
         why = "expected one success path, found %d" % len(oks)
         if good:
